@@ -15,8 +15,10 @@ RULE = ('generated clusters with several instances per node, instances lacking o
         'distributions, actions) tuples')
 ASSUMPTIONS = ['the independent load counts every unacknowledged start of the requester on the node once; it is a '
                'lower bound of what the statement requires']
-FLOORS = {'quick': {'requests_checked': 1500, 'requests_near_cap': 100, 'requests_with_pending_load': 100},
-          'thorough': {'requests_checked': 40000, 'requests_near_cap': 2500, 'requests_with_pending_load': 2500}}
+FLOORS = {'quick': {'requests_checked': 1500, 'requests_near_cap': 100, 'requests_with_pending_load': 100,
+                    'programs_disabled_on_a_peer_seen_checked': 10},
+          'thorough': {'requests_checked': 40000, 'requests_near_cap': 2500, 'requests_with_pending_load': 2500,
+                       'programs_disabled_on_a_peer_seen_checked': 150}}
 COUNT = {'quick': 640, 'thorough': 12000}
 BUDGET_S = {'quick': 55, 'thorough': 540}
 
@@ -32,14 +34,25 @@ KNOBS = {'n_min': 2, 'n_max': 4, 'max_nodes': 2,
          'disable_p': 0.2, 'n_actions': [1, 2, 3, 4, 6, 8]}
 
 
+# an additional family: a program is disabled on an instance X (in OPERATION) while an instance Y that has just
+# restarted still has X in CHECKED; once everything has settled Y is asked to start that program
+JOIN_KNOBS = {'n_min': 2, 'n_max': 3, 'max_nodes': 2,
+              'apps': {'n_apps': (1, 2), 'n_progs': (1, 3), 'seq_max': 2, 'loads': (5, 20), 'startsecs': (0, 2),
+                       'per_instance_diff': 0.0, 'managed_p': 1.0, 'identifiers_p': 0.0, 'autorestart': ('false',)},
+              'behaviours': ['normal'], 'actions': ['disable_during_join'], 'n_actions': [1], 'gaps': [0.0],
+              'after_settling': ['start_disabled_program'], 'disable_p': 0.0, 'early_p': 0.0}
+JOIN_COUNT = {'quick': 160, 'thorough': 2500}
+
+
 def plan(tier, seed):
-    return [{'seed': seed * 1000003 + i} for i in range(COUNT[tier])]
+    return [{'seed': seed * 1000003 + i} for i in range(COUNT[tier])] + \
+        [{'seed': seed * 1000003 + 800000 + i, 'family': 'disabled-during-join'} for i in range(JOIN_COUNT[tier])]
 
 
 def run_case(case):
     tracker = Tracker()
     mon = EligibilityMonitor(tracker)
-    run = Run(case, KNOBS, [tracker, mon])
+    run = Run(case, JOIN_KNOBS if case.get('family') == 'disabled-during-join' else KNOBS, [tracker, mon])
     violations = run.execute()
     nontrivial = mon.counters.get('requests_near_cap', 0) + mon.counters.get('requests_with_pending_load', 0) > 0
     return {'violations': violations, 'counters': run.counters,
